@@ -460,11 +460,12 @@ PROPS = {
         "e2": True,
         "functions": [("<Formatted<Rgba> as Display>::fmt", "value/colors/rgba.rs", r"impl Display for Formatted<'_, Rgba>"),
                       ("Rgba::name", "value/colors/rgba.rs", r"pub fn name\(&self\)"), ("Rgba::from_name", "value/colors/rgba.rs", r"pub fn from_name\(name: &str\)"),
-                      ("Lookup::from_slice", "value/colors/rgba.rs", r"fn from_slice\(data"), ("LOOKUP (the name table)", "value/colors/rgba.rs", r"static LOOKUP")],
+                      ("Lookup::from_slice", "value/colors/rgba.rs", r"fn from_slice\(data"), ("LOOKUP (the name table)", "value/colors/rgba.rs", r"static LOOKUP"),
+                      ("Rgba::all_zero", "value/colors/rgba.rs", r"pub fn all_zero\(&self\)")],
         "bounds": {"quick": "ALL byte triples (r, g, b), both styles, every source format, name present or not (symbolic), for the branch where the colour is opaque with integer channels; "
                             "names: key/unpack round trip for ALL byte triples, from_slice unrolled over up to 2 (thorough: 3) arbitrary rows, all rows of the literal table"},
         "outside": "whether the name table's values are the CSS named colours (names are read back with rsass's own Rgba::from_name; no reference table in this image); BTreeMap itself; try_bytes itself (near-integer test); rgba()/hsl()/hsla() text (write_rgba and Formatted<Hsla>: "
-                   "number formatting through core::fmt, see C10); `transparent`; unmodified colour literals, which keep their source text",
+                   "number formatting through core::fmt, see C10); unmodified colour literals, which keep their source text",
         "stubs": ["Rgba::try_bytes: None or Some(arbitrary bytes)", "Rgba::name: None or Some(name of arbitrary length) in the fmt kernel; in the name kernel u32::from_be_bytes / to_be_bytes are concat / extract, u8 -> f64 is exact, "
                   "BTreeMap::get / insert / entry / or_insert are events, the slice iterator yields arbitrary rows", "fmt::Arguments / Argument constructors are decoded structurally "
                   "(template bytes of the pinned nightly; an unknown template is inconclusive)"],
